@@ -66,38 +66,58 @@ def unpackVals (v : V) (k : Nat) : Except Err (List V) :=
 
 def evalStmts (interp : Interp V) (defs : List (Def V)) : Nat → List (Stmt V) → List V → Except Err (List V)
   | _, [], env => .ok env
-  | fuel, .call c none :: rest, env => do
-    let v ← evalCall interp env c
-    evalStmts interp defs fuel rest (env ++ [v])
-  | fuel, .call c (some k) :: rest, env => do
-    let v ← evalCall interp env c
-    let comps ← unpackVals v k
-    evalStmts interp defs fuel rest (env ++ comps)
+  | fuel, .call c none :: rest, env =>
+    match evalCall interp env c with
+    | .error e => .error e
+    | .ok v => evalStmts interp defs fuel rest (env ++ [v])
+  | fuel, .call c (some k) :: rest, env =>
+    match evalCall interp env c with
+    | .error e => .error e
+    | .ok v =>
+      match unpackVals v k with
+      | .error e => .error e
+      | .ok comps => evalStmts interp defs fuel rest (env ++ comps)
   | 0, .dag _ _ _ :: _, _ => .error .usage
   | fuel+1, .dag j args act :: rest, env =>
     match defs[j]? with
     | none => .error .usage
-    | some d => do
-      let a ← evalFlag env act
-      if a then do
-        let vs ← args.mapM (evalArg env)
-        let penv ← bindParams d.params vs
-        let ienv ← evalStmts interp defs fuel d.body penv
-        let outs ← d.ret.comps.mapM (evalArg ienv)
-        evalStmts interp defs (fuel+1) rest (env ++ outs)
-      else
-        evalStmts interp defs (fuel+1) rest (env ++ d.ret.comps.map (fun _ => PyVal.none))
+    | some d =>
+      match evalFlag env act with
+      | .error e => .error e
+      | .ok false => evalStmts interp defs (fuel+1) rest (env ++ d.ret.comps.map (fun _ => PyVal.none))
+      | .ok true =>
+        match args.mapM (evalArg env) with
+        | .error e => .error e
+        | .ok vs =>
+          match bindParams d.params vs with
+          | .error e => .error e
+          | .ok penv =>
+            match evalStmts interp defs fuel d.body penv with
+            | .error e => .error e
+            | .ok ienv =>
+              match d.ret.comps.mapM (evalArg ienv) with
+              | .error e => .error e
+              | .ok outs => evalStmts interp defs (fuel+1) rest (env ++ outs)
 termination_by fuel stmts => (fuel, stmts.length)
+
+/-- the components of what definition `i` returns when called with `args` the plain-Python way -/
+def evalTopComps (interp : Interp V) (defs : List (Def V)) (i : Nat) (args : List V) : Except Err (List V) :=
+  match defs[i]? with
+  | none => .error .usage
+  | some d =>
+    match bindParams d.params args with
+    | .error e => .error e
+    | .ok penv =>
+      match evalStmts interp defs defs.length d.body penv with
+      | .error e => .error e
+      | .ok env => d.ret.comps.mapM (evalArg env)
 
 /-- calling definition `i` of the module with `args` the plain-Python way -/
 def evalTop (interp : Interp V) (defs : List (Def V)) (i : Nat) (args : List V) : Except Err (Shape V) :=
-  match defs[i]? with
-  | none => .error .usage
-  | some d => do
-    let penv ← bindParams d.params args
-    let env ← evalStmts interp defs defs.length d.body penv
-    let outs ← d.ret.comps.mapM (evalArg env)
-    pure (d.ret.withComps outs)
+  match defs[i]?, evalTopComps interp defs i args with
+  | some d, .ok outs => .ok (d.ret.withComps outs)
+  | _, .error e => .error e
+  | none, _ => .error .usage
 
 /-! ### the tracer -/
 
@@ -136,42 +156,61 @@ def bindParamRefs (st : BState V) (flag : Option Ref) : List (Option V) → List
     let (st2, rs) ← bindParamRefs { st1 with env := st.env } flag ps as
     pure (st2, stub :: rs)
 
+/-- the activation reference imposed on the nodes of a nested call: the enclosing one, or the call's
+    own flag; the two cannot be combined (the code refuses) -/
+def nestedFlag (st : BState V) (ovr : Option Ref) (act : Option (Arg V)) : Except Err (BState V × Option Ref) :=
+  match ovr, act with
+  | some r, none => .ok (st, some r)
+  | some _, some _ => .error .usage
+  | none, none => .ok (st, none)
+  | none, some a => .ok ((traceArg st a).1, some (traceArg st a).2)
+
 def traceStmts (defs : List (Def V)) : Nat → BState V → Option Ref → List (Stmt V) → Except Err (BState V)
   | _, st, _, [] => .ok st
-  | fuel, st, ovr, .call c none :: rest => do
-    let st1 ← traceCallWith st c ovr
-    traceStmts defs fuel st1 ovr rest
-  | fuel, st, ovr, .call c (some k) :: rest => do
-    let st1 ← traceCallWith st c ovr
-    traceStmts defs fuel (rebindUnpack st1 k) ovr rest
+  | fuel, st, ovr, .call c none :: rest =>
+    match traceCallWith st c ovr with
+    | .error e => .error e
+    | .ok st1 => traceStmts defs fuel st1 ovr rest
+  | fuel, st, ovr, .call c (some k) :: rest =>
+    match traceCallWith st c ovr with
+    | .error e => .error e
+    | .ok st1 => traceStmts defs fuel (rebindUnpack st1 k) ovr rest
   | 0, _, _, .dag _ _ _ :: _ => .error .usage
   | fuel+1, st, ovr, .dag j args act :: rest =>
     match defs[j]? with
     | none => .error .usage
-    | some d => do
-      -- the flag of this nested call (an enclosing flag cannot be combined with it)
-      let (st0, flag) ← (match ovr, act with
-        | some r, none => .ok (st, some r)
-        | some _, some _ => .error .usage
-        | none, none => .ok (st, none)
-        | none, some a => .ok ((traceArg st a).1, some (traceArg st a).2) : Except Err (BState V × Option Ref))
-      let (st1, argRefs) := traceArgs st0 args
-      let (st2, prefs) ← bindParamRefs st1 flag d.params argRefs
-      let outerEnv := st2.env
-      let st3 ← traceStmts defs fuel { st2 with env := prefs } flag d.body
-      let (st4, outs) := traceArgs st3 d.ret.comps
-      traceStmts defs (fuel+1) { st4 with env := outerEnv ++ outs } ovr rest
+    | some d =>
+      match nestedFlag st ovr act with
+      | .error e => .error e
+      | .ok p0 =>
+        match bindParamRefs (traceArgs p0.1 args).1 p0.2 d.params (traceArgs p0.1 args).2 with
+        | .error e => .error e
+        | .ok p2 =>
+          match traceStmts defs fuel { p2.1 with env := p2.2 } p0.2 d.body with
+          | .error e => .error e
+          | .ok st3 =>
+            traceStmts defs (fuel+1)
+              { (traceArgs st3 d.ret.comps).1 with env := p2.1.env ++ (traceArgs st3 d.ret.comps).2 } ovr rest
 termination_by fuel _ _ stmts => (fuel, stmts.length)
+
+/-- the table of definition `i` as a top-level DAG and the references of its return components -/
+def traceTopComps (defs : List (Def V)) (i : Nat) (args : List V) : Except Err (BState V × List Ref) :=
+  match defs[i]? with
+  | none => .error .usage
+  | some d =>
+    match bindParams d.params args with
+    | .error e => .error e
+    | .ok penv =>
+      match traceStmts defs defs.length (initState penv) none d.body with
+      | .error e => .error e
+      | .ok st => .ok (traceArgs st d.ret.comps)
 
 /-- the table and return references of definition `i` as a top-level DAG -/
 def traceTop (defs : List (Def V)) (i : Nat) (args : List V) : Except Err (BState V × Shape Ref) :=
-  match defs[i]? with
-  | none => .error .usage
-  | some d => do
-    let penv ← bindParams d.params args
-    let st ← traceStmts defs defs.length (initState penv) none d.body
-    let (st', outs) := traceArgs st d.ret.comps
-    pure (st', d.ret.withComps outs)
+  match defs[i]?, traceTopComps defs i args with
+  | some d, .ok p => .ok (p.1, d.ret.withComps p.2)
+  | _, .error e => .error e
+  | none, _ => .error .usage
 
 /-- what a DAG call returns according to the model: sequential denotation of the traced table,
     `none` if some selected node raises -/
